@@ -60,9 +60,27 @@ def bound_for(tier, nc):
     return 6 if nc <= 2 else 4
 
 
+SKIP_NONSTR = "skip_nonstr"
+pg.FLATTEN[SKIP_NONSTR] = (pg.SKIP,)
+KINDS = pg.ALL_KINDS + (SKIP_NONSTR,)
+_base_perform = pg.perform
+
+
+def _perform(case, ctx, stage, kind):
+    if kind == SKIP_NONSTR:
+        # skipTest documents: the reason "must support being cast into a unicode string"
+        ctx.raised.append((stage, kind, "%s!%s" % (stage, kind)))
+        ctx.xlog.append(("raise", stage, kind))
+        case.skipTest(42)
+    return _base_perform(case, ctx, stage, kind)
+
+
+pg.perform = _perform
+
+
 def config_of(shard):
     flavour, nc, em, ff, dec = shard
-    return pg.Config(actions=cleanup_actions(nc), expect_mismatch=em, force_failure=ff, decorator=dec)
+    return pg.Config(actions=cleanup_actions(nc), kinds=KINDS, expect_mismatch=em, force_failure=ff, decorator=dec)
 
 
 def execute(config, flavour, chooser):
